@@ -131,7 +131,8 @@ def bbox_bounds(repo, rep):
     fi = repo.func(f"{SEL}.sel_bbox")
     lo, hi, tol = set(), set(), None
     axis_of = {}
-    for n in ast.walk(fi.node):
+    from ..astutil import simple_assigns
+    for n in simple_assigns(fi.node):
         if isinstance(n, ast.Assign) and isinstance(n.targets[0], ast.Name) and isinstance(n.value, ast.BinOp):
             v = n.value
             if isinstance(v.left, ast.Call) and v.left.args:
@@ -143,8 +144,10 @@ def bbox_bounds(repo, rep):
                 hi.add(n.targets[0].id)
                 rep.ok("R-C14-2", f"{fi.file}:{n.lineno} sel_bbox", unparse(n), "upper bound = largest query value plus the tolerance")
             elif isinstance(v.left, ast.Call) and call_name(v.left) in ("min", "max", "np.min", "np.max"):
-                rep.fail("R-C14-2", fi.file, n.lineno, fi.qualname, unparse(n), "the tolerance must WIDEN the box: min(...) - tolerance, max(...) + tolerance")
-    for n in ast.walk(fi.node):
+                rep.fail("R-C14-2", fi.file, n.lineno, fi.qualname, unparse(n), "the tolerance must WIDEN the box: min(...) - tolerance, max(...) + tolerance",
+                         anchor=f"sel_bbox:tolerance-sign:{n.targets[0].id}")
+                (lo if call_name(v.left).endswith("min") else hi).add(n.targets[0].id)      # still this side's bound: the rest of the rule can go on
+    for n in simple_assigns(fi.node):
         # bounds taken from the (convention-adjusted) query without the tolerance
         if isinstance(n, ast.Assign) and isinstance(n.targets[0], ast.Name) and isinstance(n.value, ast.Call) and n.value.args \
                 and call_name(n.value) in ("min", "max", "np.min", "np.max") and "coords" in unparse(n.value.args[0]) and n.targets[0].id not in lo | hi:
@@ -265,6 +268,18 @@ def epilogues(repo, rep):
 def idw(repo, rep):
     fi = repo.func(f"{SEL}.sel_idw")
     t = unparse(fi.node)
+    # a vectorised combination: a reduction over the site dimension must propagate missing values (xarray's sum / mean skip NaN by default, so a
+    # neighbour with missing spectra silently drops out of the weighted mean and the remaining weights no longer add up to one)
+    for c_ in ast.walk(fi.node):
+        if isinstance(c_, ast.Call) and isinstance(c_.func, ast.Attribute) and c_.func.attr in ("sum", "mean", "nansum", "nanmean") \
+                and (any(repo.const(fi.module, a_) == repo.attrs.SITENAME for a_ in c_.args)
+                     or any(k_.arg == "dim" and repo.const(fi.module, k_.value) == repo.attrs.SITENAME for k_ in c_.keywords)):
+            sk = kwarg(c_, "skipna")
+            if c_.func.attr.startswith("nan") or sk is None or repo.const(fi.module, sk) is not False:
+                rep.fail("R-C14-4", fi.file, c_.lineno, fi.qualname, unparse(c_)[:100],
+                         "the neighbours are combined by a reduction over 'site' that skips NaN: a station with missing spectra contributes nothing instead of "
+                         "making the combination missing, and the weights of the others are not renormalised (a zero-distance match on it returns zeros)",
+                         anchor="sel_idw:nan-skipping-reduction")
     # factor 1/dist and the zero-distance short cut
     inner = [n for n in ast.walk(fi.node) if isinstance(n, ast.For) and isinstance(n.iter, ast.Call) and call_name(n.iter) == "zip"
              and isinstance(n.target, ast.Tuple) and len(n.target.elts) == 2 and any(isinstance(x, ast.Break) for x in ast.walk(n))]
@@ -302,6 +317,8 @@ def idw(repo, rep):
              and getattr(n, "_parent", None) is getattr(loop, "_parent", None)
              and any(isinstance(x, (ast.For, ast.AugAssign)) for o in n.orelse for x in ast.walk(o))]
     if len(masks) != 1:
+        if any(f_.anchor == "sel_idw:nan-skipping-reduction" for f_ in rep.findings):
+            return
         raise AnalysisError("sel_idw: masking branch not found")
     cond = masks[0].test
     ct = unparse(cond).replace(" ", "")
